@@ -277,6 +277,8 @@ def _undo(repo, col):
     for s in ed.stores:
         if s.kind == "mcall" and s.key.name in ("pop", "remove") and s.base.op == "attr":
             released[s.base.name] = s
+        if s.kind == "del" and s.base is not None and s.base.op == "attr":   # `del registry[i]` is `registry.pop(i)`
+            released[s.base.name] = s
         if s.kind == "mcall" and s.key.name == "drop":
             released["columns"] = s
         if s.kind == "sub" and s.base.op == "attr" and s.base.name == "loc":
@@ -343,10 +345,13 @@ def _undo(repo, col):
     # registry release guarded by "no compartment keeps the channel"
     s = released.get("channels")
     if s is not None:
-        ok = any(T.find(g, lambda x: x.op == "mcall" and x.name == "all") is not None for g in s.guards)
+        def nobody(g):
+            x_ = idx.none_true(g)
+            return x_ is not None and T.find(x_, lambda y: y.op == "attr" and y.name == "nodes" and y.args and y.args[0].op == "attr" and y.args[0].name == "base") is not None
+        ok = any(nobody(g) for g in s.guards)
         col.check(ok, R, dele, "delete_channel: registry entry removed only when no compartment keeps the channel", "np.all(~base.nodes[name])",
                   "the channel is removed from the registry while compartments may still contain it", node=s.node)
-        popi = s.value.args[1] if s.value.op == "mcall" and len(s.value.args) > 1 else None
+        popi = s.value.args[1] if s.value is not None and s.value.op == "mcall" and len(s.value.args) > 1 else (s.key if s.kind == "del" else None)
         ok = popi is not None and popi.op == "mcall" and popi.name == "index" and \
             T.find(popi, lambda x: x.op == "attr" and x.name == "channels" and x.args[0].op == "attr" and x.args[0].name == "base") is not None
         col.check(ok, R, dele, "delete_channel: the popped registry position is looked up in the base's channel list",
